@@ -22,7 +22,7 @@ func zzHas(p string, c byte) bool {
 // parsing the text with the same pattern returns the instant's value in every field
 // present in the pattern (absent fields are filled from the current time by design and
 // are not constrained). Focus rotation: one calendar field over its whole range.
-//vf: paths=200000 qtimeout=20s
+//vf: paths=200000 qtimeout=20s t.deadline=40m
 func ZZ_C19_DateFormat() {
 	p := zzPatterns[zzvf.Choose(len(zzPatterns))]
 	// the time-of-day fields rotate as the symbolic focus; year / month / day are drawn from
@@ -35,13 +35,19 @@ func ZZ_C19_DateFormat() {
 		}
 		return vals[zzvf.Choose(len(vals))]
 	}
-	Y := pick(0, 2000, 2099, []int{2000, 2023, 2024, 2099})
-	M := pick(1, 1, 12, []int{1, 2, 9, 10, 12})
-	D := pick(2, 1, 28, []int{1, 9, 10, 28})
-	h := pick(3, 0, 23, []int{0, 23})
-	mi := pick(4, 0, 59, []int{0, 59})
+	ys, ms_, ds := []int{2000, 2099}, []int{1, 12}, []int{1, 28}
+	hs, mis, mss := []int{23}, []int{0}, []int{45}
+	if zzvf.Thorough() {
+		ys, ms_, ds = []int{2000, 2023, 2024, 2099}, []int{1, 2, 9, 10, 12}, []int{1, 9, 10, 28}
+		hs, mis, mss = []int{0, 23}, []int{0, 59}, []int{0, 45, 999}
+	}
+	Y := pick(0, 2000, 2099, ys)
+	M := pick(1, 1, 12, ms_)
+	D := pick(2, 1, 28, ds)
+	h := pick(3, 0, 23, hs)
+	mi := pick(4, 0, 59, mis)
 	s := pick(5, 0, 59, []int{7})
-	ms := pick(6, 0, 999, []int{0, 45, 999})
+	ms := pick(6, 0, 999, mss)
 	t := time.Date(Y, time.Month(M), D, h, mi, s, ms*1000000, time.UTC)
 	text := NewDateFormat(p).FormatTime(t)
 	back, err := NewDateFormat(p).Parse(text)
